@@ -508,12 +508,12 @@ func max(a, b int) int {
 func init() {
 	tail := "; the cutting-planes strategy is on from the start or switched on at a drawn point of the history in a quarter of the cases; history of 1..12 steps (Solve | AppendClause of a clause with possibly repeated/complementary literals | cardinality constraint 1<=k<=len | PB constraint with weights 1..4, k>=1), new variables up to 3 beyond the current maximum (total <=10), additions aimed with the harness's oracle (agreeing with / against a current model, entailed, contradictory); invariant after every Solve: verdict = truth table of base AND everything added, model satisfies it, Unsat is permanent; non-trivial = a Solve after an addition after a Solve"
 	vf.Register(
-		vf.Sub[Case]{Name: "cnf-base", Quick: 12000, Thorough: 150000, Gen: genCase("slicenb"), Check: check, Floor: 0.4, Rule: "base CNF via ParseSliceNb (n<=8)" + tail},
+		vf.Sub[Case]{Name: "cnf-base", Quick: 12000, Thorough: 75000, Gen: genCase("slicenb"), Check: check, Floor: 0.4, Rule: "base CNF via ParseSliceNb (n<=8)" + tail},
 		vf.Sub[Case]{Name: "conflict-rich-base", Quick: 1500, Thorough: 20000, Gen: genCase("hard"), Check: check, Floor: 0.4, Rule: "base = threshold 3-SAT at n 10..13 or a satisfiable pigeonhole formula (12 variables): the solver has learned clauses and units when constraints are added (variables up to 14)" + tail},
-		vf.Sub[Case]{Name: "long-cardinality", Quick: 3000, Thorough: 40000, Gen: genCase("long-card"), Check: check, Floor: 0.5, Rule: "base = 1..3 cardinality constraints of 7..n literals and degree 2..3 over n in 9..13 variables; history of 3..14 steps: Solve, addition of further long cardinality constraints, and mostly unit clauses that stay consistent with a current model (they falsify literals in the unwatched part of constraints the solver already holds)" + tail},
-		vf.Sub[Case]{Name: "dense-cardinality", Quick: 10000, Thorough: 60000, Gen: genCase("dense-card"), Check: check, Floor: 0.5, Rule: "base = 2..5 cardinality constraints of 4..9 literals (either polarity) and degree 2..(len+1)/2 over n in 8..13 variables; history of 4..14 steps: Solve, mostly additions of further such constraints, some short clauses: the conjunction crosses its satisfiability threshold during the history and conflicts are analysed through cardinality reasons" + tail},
-		vf.Sub[Case]{Name: "card-base", Quick: 8000, Thorough: 100000, Gen: genCase("card"), Check: check, Floor: 0.4, Rule: "base cardinality problem via ParseCardConstrs" + tail},
-		vf.Sub[Case]{Name: "pb-base", Quick: 8000, Thorough: 100000, Gen: genCase("pb"), Check: check, Floor: 0.4, Rule: "base PB problem via ParsePBConstrs" + tail},
+		vf.Sub[Case]{Name: "long-cardinality", Quick: 3000, Thorough: 20000, Gen: genCase("long-card"), Check: check, Floor: 0.5, Rule: "base = 1..3 cardinality constraints of 7..n literals and degree 2..3 over n in 9..13 variables; history of 3..14 steps: Solve, addition of further long cardinality constraints, and mostly unit clauses that stay consistent with a current model (they falsify literals in the unwatched part of constraints the solver already holds)" + tail},
+		vf.Sub[Case]{Name: "dense-cardinality", Quick: 10000, Thorough: 30000, Gen: genCase("dense-card"), Check: check, Floor: 0.5, Rule: "base = 2..5 cardinality constraints of 4..9 literals (either polarity) and degree 2..(len+1)/2 over n in 8..13 variables; history of 4..14 steps: Solve, mostly additions of further such constraints, some short clauses: the conjunction crosses its satisfiability threshold during the history and conflicts are analysed through cardinality reasons" + tail},
+		vf.Sub[Case]{Name: "card-base", Quick: 8000, Thorough: 50000, Gen: genCase("card"), Check: check, Floor: 0.4, Rule: "base cardinality problem via ParseCardConstrs" + tail},
+		vf.Sub[Case]{Name: "pb-base", Quick: 8000, Thorough: 50000, Gen: genCase("pb"), Check: check, Floor: 0.4, Rule: "base PB problem via ParsePBConstrs" + tail},
 	)
 }
 
